@@ -1403,9 +1403,10 @@ C19_VALIDATE = dict(
     prims=[(_GLOB % "screen_metadata.json", "glob_meta_files output_dir'", "list mfile"),
            _LEN0, ("__l[0]", "!shead {l}", "mfile", {"l": "list mfile"}),
            ("isinstance(__o, dict)", "is_dict {o}", "bool", {"o": "opt jval"}),
-           ("'n_unobserved_plates' not in __o", "lacks_nup {o}", "bool", {"o": "opt jval"})],
+           # a key test only on a dict; anything else raises in the model (the `or` of the source must guard it)
+           ("'n_unobserved_plates' not in __o", "!lacks_nup {o}", "bool", {"o": "opt jval"})],
     try_prims=[("json.load(__f)", "SOk (json_load {f})", {"f": "mfile"}, "Some {x}", "jval")],
-    try_except_classes=["ValueError"],
+    try_except_classes=["ValueError"], short_circuit=True,
 )
 C19_GET_TEST_SCREEN = dict(
     _C19, func="get_test_screen_from_job_output", name="src_get_test_screen_from_job_output", pyparams=["output_dir"],
